@@ -347,6 +347,9 @@ def s5_sizers(ctx):
         for s in sp:
             p, lp = s['path'], s['loop']
             asset, w, wsrc = loop_asset_weight(lp)
+            if wsrc is None or fmt(wsrc) == 'None' or asset is None:
+                ctx.undecided('C09.S5', '%s assigns a target to every asset it iterates (no break/continue/filter)' % cname, lp.site, 'what the loop iterates was not traced back to the weights')
+                continue
             live_bodies = [b for b in s['bodies'] if b['path'].outcome != 'raise']
             if live_bodies and all(not b['writes'] for b in live_bodies) and p.value is not None and p.value[0] == 'comp' and p.value[1] == 'dict' \
                     and any(s_[0] == 'accum' or (s_[0] == 'comp' and s_[1] == 'list') for g_ in p.value[3] for s_ in T.subterms(g_[1])):
